@@ -613,6 +613,8 @@ class LTE:
                             self.__E0.copy(),
                             self.__dE.copy(),
                             mu.copy(),
+                            gfe_matrix.copy(),
+                            gfe_vector.copy(),
                         )
                     )
                 # Apply the relaxation factor to the new number of particles.
